@@ -18,7 +18,7 @@ type C01Case struct {
 	Switches map[string]string `json:"switches,omitempty"`
 }
 
-func c01Src(c *C01Case) string { return Canon(c.File) }
+func c01Src(c *C01Case) string { return CanonMaybeDense(c.File) }
 
 func hasLoopOrSwitch(b *Block) (yes bool, ifDepth int) {
 	var rec func(b *Block, d int)
